@@ -93,6 +93,9 @@ def run(pid, tier, seed, replay=None):
     if pid == "C20":
         import p20
         return p20.run(tier, seed, replay)
+    if pid == "C17":
+        import p17
+        return p17.run(tier, seed, replay)
     if pid in PLAN:
         return run_generic(pid, tier, seed, replay)
     print("unknown property", pid)
